@@ -21,7 +21,7 @@ package io
 //@ spec le32(s seq, p int) int = s[p] + s[p+1]*256 + s[p+2]*65536 + s[p+3]*16777216
 //@ spec le64(s seq, p int) int = le32(s, p) + le32(s, p+4)*4294967296
 //@ spec be16(s seq, p int) int = s[p+1] + s[p]*256
-//@ spec validR(r *BinReader) bool = r != nil && r.r != nil && 0 <= r.r.pos && r.r.pos <= len(r.r.in)
+//@ spec validR(r *BinReader) bool = r != nil && r.r != nil && (is(r.r, *bytes.Reader) ==> r.r.(*bytes.Reader) != nil) && 0 <= r.r.pos && r.r.pos <= len(r.r.in)
 
 //@ func (*BinReader).ReadBytes
 //@ requires validR(r)
@@ -157,7 +157,8 @@ package io
 //@ ensures[body] w.Err == nil ==> forall(i, 0, len(b), w.w.out[old(len(w.w.out)) + varsize(len(b)) + i] == b[i])
 
 //@ func (*BinReader).ReadVarBytes
-//@ requires validR(r) && (len(maxSize) > 0 ==> maxSize[0] >= 0)
+//@ requires[reader] validR(r)
+//@ requires[nonneg] len(maxSize) > 0 ==> maxSize[0] >= 0
 //@ modifies r.Err, r.uv, r.r.pos
 //@ ensures[sticky] old(r.Err) != nil ==> r.Err == old(r.Err) && r.r.pos == old(r.r.pos)
 //@ ensures[bound] len(result) <= ite(len(maxSize) > 0, maxSize[0], MaxArraySize)
@@ -171,6 +172,12 @@ package io
 // so callers must pass a non-negative limit.
 //@ func (*BinReader).ReadArray
 //@ assumed
-//@ requires validR(r) && (len(maxSize) > 0 ==> maxSize[0] >= 0)
+//@ requires[reader] validR(r)
+//@ requires[nonneg] len(maxSize) > 0 ==> maxSize[0] >= 0
 //@ modifies r.Err, r.uv, r.r.pos
 //@ ensures old(r.r.pos) <= r.r.pos && validR(r)
+
+//@ func (*BinReader).Len
+//@ requires validR(r)
+//@ ensures[bytes] is(r.r, *bytes.Reader) ==> result == len(r.r.in) - r.r.pos
+//@ ensures[other] !is(r.r, *bytes.Reader) ==> result == -1
